@@ -482,6 +482,7 @@ _EXTRA = {
     'C06': [NEG_DRV, INIT_DRV, STAGES_DRV], 'C08': [STAGES_DRV, ISO_DRV], 'C10': [ISO_DRV, TABLE_MODEL], 'C11': [TABLE_MODEL, ISO_DRV, NODE_PEERS_DRV],
     'C12': [TABLE_MODEL, NODE_PEERS_DRV, ISO_DRV], 'C13': [TABLE_MODEL, ISO_DRV, NODE_PEERS_DRV], 'C14': [SELF_DRV, STAGES_DRV, OWN_DRV],
     'C15': [NODE_PEERS_DRV], 'C16': [CODEC_DRV, INIT_DRV], 'C19': [ISO_DRV],
+    'C17': [{'file': 'native/beacon_layout.rs', 'attach': 'src/beacon.rs', 'test': 'beacons_are_recovered_exactly'}, {'file': 'native/beacon_markers.rs', 'attach': 'src/beacon.rs', 'test': 'marker_search_never_panics'}],
 }
 for _pid, _P in PROPS.items():
     _ns = _P.setdefault('native_search', {})
@@ -495,6 +496,23 @@ for _pid, _P in PROPS.items():
             _all.append(_d)
     if _all:
         _ns[r'.*'] = _all
+
+# Bounded stand-ins in the QUICK tier: the clauses of a property that live in code no contract within reach decides (node-level histories,
+# HashMap iteration, labelled loops, ring objects) are searched by these drivers on every run; they are reported as `bounded` obligations
+# (`native::<driver>`), never as proved. Each driver counts only the failures tagged with the property it runs for.
+CONNECT_DRV = {'file': 'native/connect_peers.rs', 'attach': 'src/cloud.rs', 'test': 'peer_lists_lead_to_the_right_dials'}
+LAYOUT_DRV = {'file': 'native/beacon_layout.rs', 'attach': 'src/beacon.rs', 'test': 'beacons_are_recovered_exactly'}
+MARKERS_DRV = {'file': 'native/beacon_markers.rs', 'attach': 'src/beacon.rs', 'test': 'marker_search_never_panics'}
+_QUICK = {
+    'C01': [STAGES_DRV], 'C02': [ISO_DRV], 'C04': [NONCE_DRV], 'C06': [NEG_DRV], 'C08': [STAGES_DRV], 'C10': [ISO_DRV, CONNECT_DRV], 'C11': [ISO_DRV],
+    'C12': [NODE_PEERS_DRV], 'C13': [ISO_DRV, NODE_PEERS_DRV], 'C14': [OWN_DRV, CONNECT_DRV, STAGES_DRV], 'C15': [NODE_PEERS_DRV], 'C17': [LAYOUT_DRV, MARKERS_DRV],
+    'C20': [{'file': 'native/config_merge.rs', 'attach': 'src/config.rs', 'test': 'sources_combine_as_documented'}],
+}
+for _pid, _l in _QUICK.items():
+    PROPS[_pid]['quick_native'] = _l
+    for _d in _l:
+        if _d not in PROPS[_pid]['native_search'].setdefault(r'.*', []):
+            PROPS[_pid]['native_search'][r'.*'].append(_d)
 
 NOT_APPLICABLE = {
     'C05': 'all-schedules agreement and recovery of two retransmitting state machines plus a liveness bound: a protocol-level joint invariant and liveness, outside per-function contracts',
